@@ -1207,6 +1207,28 @@ func runUnconfirmedNotClaimed(c *Ctx) {
 							// accepted: tests that read nothing but the copy's bounds and the reservation list itself
 							// (`int(u/8) < len(copy)`, `len(s.unconfirmed) > 0`): no other field, no call besides len and conversions
 							boundsOnly := true
+							// inside the loop over the reservations: a conjunction of upper bounds on the reserved index itself
+							// (`u < s.TotalChunks && int(u/8) < len(copy)`) filters per element and is no condition on the clearing as such
+							if elem := enclosingRangeValue(st.f.Body, is, finfo); elem != nil {
+								perElem := true
+								var conj func(e ast.Expr)
+								conj = func(e ast.Expr) {
+									e = ast.Unparen(e)
+									if be, ok := e.(*ast.BinaryExpr); ok && be.Op == token.LAND {
+										conj(be.X)
+										conj(be.Y)
+										return
+									}
+									be, ok := e.(*ast.BinaryExpr)
+									if !ok || (be.Op != token.LSS && be.Op != token.LEQ) || rootObjDeep(finfo, be.X) != elem {
+										perElem = false
+									}
+								}
+								conj(is.Cond)
+								if perElem {
+									continue
+								}
+							}
 							ast.Inspect(is.Cond, func(k ast.Node) bool {
 								switch v := k.(type) {
 								case *ast.SelectorExpr:
@@ -1568,6 +1590,36 @@ func paramObj(f *FuncInfo, k int) types.Object {
 				return f.Info().ObjectOf(nm)
 			}
 			n++
+		}
+	}
+	return nil
+}
+
+
+// enclosingRangeValue: the value variable of the innermost range statement of root that encloses n (nil when there is none).
+func enclosingRangeValue(root ast.Node, n ast.Node, info *types.Info) types.Object {
+	path := pathTo(root, n)
+	for i := len(path) - 2; i >= 0; i-- {
+		if rs, ok := path[i].(*ast.RangeStmt); ok && rs.Value != nil {
+			return ObjOf(info, rs.Value)
+		}
+	}
+	return nil
+}
+
+// rootObjDeep: the single variable an arithmetic expression is built from (conversions, / % >> by constants), or nil.
+func rootObjDeep(info *types.Info, e ast.Expr) types.Object {
+	e = ast.Unparen(e)
+	switch v := e.(type) {
+	case *ast.Ident:
+		return ObjOf(info, v)
+	case *ast.CallExpr:
+		if tv, ok := info.Types[v.Fun]; ok && tv.IsType() && len(v.Args) == 1 {
+			return rootObjDeep(info, v.Args[0])
+		}
+	case *ast.BinaryExpr:
+		if tv, ok := info.Types[v.Y]; ok && tv.Value != nil {
+			return rootObjDeep(info, v.X)
 		}
 	}
 	return nil
